@@ -30,7 +30,7 @@ COUNTS = {'quick': 300, 'thorough': 6000}
 BUDGET = {'quick': 110, 'thorough': 1500}
 TIMEOUT = 240
 SHRINK_LISTS = [['segments_cut']]
-EXPECTED_PROBES = ['init_ok', 'init_failed_reported', 'flat_checked', 'precondition_unmet', 'corrupted_handover', 'qrt_clock',
+EXPECTED_PROBES = ['offline_unit', 'init_ok', 'init_failed_reported', 'flat_checked', 'precondition_unmet', 'corrupted_handover', 'qrt_clock',
                    'resumed']
 RULE = ('plan = (every stock case in turn, seeded knobs, flat run split into seeded resumed segments, optional qrt + simulated clock '
         'mode, optional hand-over corruption); non-trivial = initialisation ran and an oracle was evaluated on a case with states; '
@@ -53,6 +53,9 @@ def plans(seed, tier, count):
     for i, c in enumerate(cases):
         out.append({'property': PROP, 'seed': core.H('fix05', i), 'case': c, 'knobs': {}, 'channels': {}, 'tf': 1.0,
                     'segments_cut': [], 'clock': None, 'corrupt': None})
+    for k in range(3):
+        out.append({'property': PROP, 'seed': core.H('fix05off', k), 'case': '5bus/pjm5bus.json', 'knobs': {}, 'channels': {}, 'tf': 0.5,
+                    'segments_cut': [], 'clock': None, 'corrupt': None, 'offline': {'unit': (k + 0.5) / 3}})
     i = 0
     while len(out) < count:
         out.append({'stub': True, 'seed': core.H(seed, PROP, i), 'tier': tier})
@@ -90,8 +93,39 @@ def elaborate(stub):
     corrupt = None
     if f.random() < 0.25:
         corrupt = {'kind': f.choice(['v', 'a', 'v_small']), 'bus_frac': f.random(), 'amount': f.choice([0.02, 0.05, 0.1])}
+    o = stream(seed, 'offline')
+    offline = None
+    if o.random() < 0.2 and not corrupt:
+        offline = {'unit': o.random()}
     return {'property': PROP, 'seed': seed, 'case': case, 'knobs': knobs, 'channels': channels, 'tf': tf,
-            'segments_cut': segs[:-1], 'clock': clock, 'corrupt': corrupt}
+            'segments_cut': segs[:-1], 'clock': clock, 'corrupt': corrupt, 'offline': offline}
+
+
+def _take_unit_offline(ss, pick, info):
+    """Before set-up: one generating unit completely out of service (static generator, machine and its controllers)."""
+    units = []
+    for name in ('GENCLS', 'GENROU'):
+        m = ss.models[name]
+        for i in range(m.n):
+            try:
+                sg = ss.StaticGen.idx2model(m.gen.v[i])
+            except KeyError:
+                continue
+            if sg.class_name != 'Slack':
+                units.append((name, i, sg))
+    if not units:
+        return
+    name, i, sg = units[int(pick * len(units)) % len(units)]
+    m = ss.models[name]
+    sidx, gidx = m.idx.v[i], m.gen.v[i]
+    sg.u.v[list(sg.idx.v).index(gidx)] = 0
+    m.u.v[i] = 0
+    for grp, field in (('TurbineGov', 'syn'), ('Exciter', 'syn')):
+        for md in ss.groups[grp].models.values():
+            for k in range(md.n):
+                if md.__dict__[field].v[k] == sidx:
+                    md.u.v[k] = 0
+    info['unit'] = '%s %s' % (name, sidx)
 
 
 def limiters_inside(ss):
@@ -127,12 +161,23 @@ def execute(plan):
             knobs['TDS.qrt'] = 1
             knobs['TDS.kqrt'] = 1.0
         p = dict(plan, knobs=knobs, flat=True, events=[], disable_stock_events=False)
-        ss, kn = tdssim.build(p, rc_dir=rc_dir)
+        off_info = {}
+        if plan.get('offline'):
+            from dst.world import build_system as _bs
+            kk, ch = dict(tdssim.DEFAULT_KNOBS), plan.get('channels') or {}
+            kk.update(knobs)
+            ss = _bs(plan['case'], knobs=kk, channels=ch, rc_dir=rc_dir, extra={'flat': True},
+                     pre_setup=lambda s_: _take_unit_offline(s_, plan['offline']['unit'], off_info))
+            kn = kk
+            probes['offline_unit'] = int(bool(off_info.get('unit')))
+        else:
+            ss, kn = tdssim.build(p, rc_dir=rc_dir)
         v += tdssim.check_config(ss, kn)
         if not ss.PFlow.run():
             res.update(precondition_unmet=1, nontrivial=False, sig='pf-failed', digest='pf-failed')
             return res
         y_pf = ss.PFlow.y_sol.copy()
+        sg_before = {n: np.array(m.u.v, dtype=float).copy() for n, m in ss.StaticGen.models.items() if m.n}
         nb = ss.Bus.n
         a_addr = np.array(ss.Bus.a.a)
         v_addr = np.array(ss.Bus.v.a)
@@ -156,6 +201,20 @@ def execute(plan):
         if not np.isfinite(resid):
             resid = float('inf')
         ok = ss.TDS.test_ok
+        # --- a static generator that was out of service in the power flow is never switched on by the dynamic initialisation
+        for n, ub in sg_before.items():
+            ua = np.array(ss.models[n].u.v, dtype=float)
+            on = np.where((ub == 0) & (ua != 0))[0]
+            if len(on):
+                v.append(V('handover', 'static generator %s %r was out of service in the power flow and is in service after dynamic '
+                           'initialisation' % (n, ss.models[n].idx.v[int(on[0])]), what='static_gen_switched_on'))
+        if plan.get('offline') and off_info.get('unit') and ok is False:
+            names = ss.dae.x_name + ss.dae.y_name
+            j = int(np.argmax(np.abs(fg)))
+            toks = names[j].split(' ')
+            v.append(V('init_offline', 'with unit %s completely out of service (static generator, machine, governor, exciter) initialisation '
+                       'fails: residual %.3g at <%s>' % (off_info['unit'], float(fg[j]), names[j]), model=toks[1] if len(toks) > 1 else '?',
+                       var=toks[0]))
         # --- report <=> residual
         if ok is True and not resid < tol:
             v.append(V('init_report', 'test_ok True but max residual after init is %.3g >= tol %.3g' % (resid, tol), what='true_but_residual'))
@@ -174,7 +233,7 @@ def execute(plan):
                 v.append(V('corrupted', 'hand-over corrupted (%s) but initialisation reports %r (residual %.3g)' % (corrupt, ok, resid),
                            what='not_reported'))
         # stock data measured consistent on the pinned tree must keep initialising (default tolerance only)
-        if not corrupt and 'TDS.tol' not in plan['knobs'] and ok is not True:
+        if not corrupt and not plan.get('offline') and 'TDS.tol' not in plan['knobs'] and ok is not True:
             cat = next((c for c in catalogue()['cases'] if c['case'] == plan['case']), None)
             if cat is not None and cat.get('test_ok') is True:
                 v.append(V('init_succeeds', 'stock case with consistent data no longer initialises: test_ok %r, max residual %.3g' %
